@@ -10,7 +10,7 @@ LEVEL = "exploration"
 RULE = ("dat files built by an independent packer: standard / texture / model entries at random 128-aligned offsets in dat0..dat7 with 0xCD junk around, "
         "content lengths 0..1 MiB (quick <= 256 KiB) incl. edges 0,1,127..129,15999..16001,31999..32001, content kinds random/runs/text/zero, block sizes 1..16000, "
         "each block independently raw (32000 marker) or raw-deflate by Python zlib (stored, Z_FIXED, Z_HUFFMAN_ONLY, Z_RLE, dynamic); textures with 1..5 mips and "
-        "per-mip block chains, models with stack/runtime/vertex/index sections for 1..3 LODs and arbitrary per-section block counts; read through "
+        "per-mip block chains, blocks / mips / sections stored in another order than their tables list them and with unused room between them (offsets are what counts), models with stack/runtime/vertex/index sections for 1..3 LODs and arbitrary per-section block counts; read through "
         "SqPackData::read_from_offset and (one in four) through GameData::extract on a generated index; plus entries of all three kinds stored at offsets from 4 GiB - 128 up to 2^35 in "
         "a sparse dat file, read both ways. non-trivial = >= 1 deflated block or >= 2 blocks or "
         "texture/model kind; distinct = digest of (kind, content, split, strategies)")
@@ -195,9 +195,14 @@ def group(ctx, rng, P):
             if not chunks and rng.random() < 0.5:
                 chunks = [b""]
             strategies = [sf() for _ in chunks]
-            entry, used = sq.standard_entry(chunks, strategies, gap=rng.choice([0, 0, 1]))
+            # the block table carries each block's offset: the blocks need not be stored in content order
+            order = None
+            if len(chunks) >= 2 and rng.random() < 0.3:
+                order = list(range(len(chunks)))
+                rng.shuffle(order) if rng.random() < 0.7 else order.reverse()
+            entry, used = sq.standard_entry(chunks, strategies, gap=rng.choice([0, 0, 1]), order=order)
             exp = dict(kind=kind, data=data)
-            meta = dict(kind=kind, content=ck, length=len(data), blocks=len(chunks))
+            meta = dict(kind=kind, content=ck, length=len(data), blocks=len(chunks), storage="permuted" if order else "in-order")
         elif kind == "texture":
             hl = rng.choice([80, 80, 80, 0, 16, 200])
             header = rng.randbytes(hl)
@@ -205,9 +210,17 @@ def group(ctx, rng, P):
             for m in range(rng.randint(1, 5)):
                 d, ck = content(rng, max(1, pick_len(rng, P["maxlen"] // 4)))
                 mips.append(bounded_split(rng, d, pick_sizes(rng), 120))
-            entry, expected, used = sq.texture_entry(header, mips, sf)
+            # every mip carries its own offset: mips after the first may be stored in any order, with unused room between them
+            mip_order, mip_gap = None, 0
+            if len(mips) >= 2 and rng.random() < 0.35:
+                mip_order = list(range(1, len(mips)))
+                rng.shuffle(mip_order)
+                mip_gap = rng.choice([0, 1, 3])
+                if mip_order == list(range(1, len(mips))) and mip_gap == 0:
+                    mip_gap = 1
+            entry, expected, used = sq.texture_entry(header, mips, sf, mip_order=mip_order, mip_gap=mip_gap)
             exp = dict(kind=kind, data=expected)
-            meta = dict(kind=kind, content="tex", length=len(expected), blocks=sum(len(m) for m in mips), mips=len(mips))
+            meta = dict(kind=kind, content="tex", length=len(expected), blocks=sum(len(m) for m in mips), mips=len(mips), storage="permuted" if mip_order else "in-order")
         else:
             nl = rng.randint(1, 3)
             stack, _ = content(rng, rng.choice([1, 136, 272, rng.randint(1, 20000)]))
@@ -228,10 +241,16 @@ def group(ctx, rng, P):
             sizes = pick_sizes(rng)
             version = rng.choice([0x1000005, 0x1000006, rng.getrandbits(32)])
             hdrvals = dict(version=version, vdecl=rng.randrange(1, 40), materials=rng.randrange(0, 9), lod_count=nl, streaming=rng.random() < 0.5, edge=False)
+            # every section carries its own offset: the block runs may be laid out in any order, with unused room between them
+            storage, sec_gap = None, 0
+            if rng.random() < 0.3:
+                storage = ["stack", "runtime"] + ["%s%d" % (a, i) for i in range(3) for a in "vi"]
+                rng.shuffle(storage)
+                sec_gap = rng.choice([0, 1, 2])
             entry, sections, used = sq.model_entry(version, stack, runtime, lods, hdrvals["vdecl"], hdrvals["materials"], nl, hdrvals["streaming"], False,
-                                                   lambda d: bounded_split(rng, d, sizes, 150), sf)
+                                                   lambda d: bounded_split(rng, d, sizes, 150), sf, storage=storage, sec_gap=sec_gap)
             exp = dict(kind=kind, sections=sections, hdr=hdrvals)
-            meta = dict(kind=kind, content="mdl", length=sum(len(s) for s in sections.values()), blocks=len(used), lods=nl)
+            meta = dict(kind=kind, content="mdl", length=sum(len(s) for s in sections.values()), blocks=len(used), lods=nl, storage="permuted" if storage else "in-order")
         off = db.add(entry, gap_blocks=rng.choice([0, 0, 1, 5]))
         meta["used"] = sorted(set(used))
         planted.append((datid, off, exp, meta, digest(kind, entry)))
@@ -272,6 +291,7 @@ def group(ctx, rng, P):
             classes.append("len:%s" % ("edge%d" % meta["length"] if meta["length"] in EDGES else lbucket(meta["length"])))
         if "lods" in meta:
             classes.append("lods:%d" % meta["lods"])
+        classes.append("storage:%s:%s" % (meta["kind"], meta.get("storage", "in-order")))
         via = "extract" if gd is not None else "read_from_offset"
         classes.append("via:" + via)
         ctx.case(key, nontrivial, classes, sample=dict(meta, offset=off, dat=datid, via=via))
